@@ -1,6 +1,8 @@
 package extractor
 
 import (
+	"fmt"
+
 	"github.com/grafov/m3u8"
 	"github.com/internetarchive/Zeno/pkg/models"
 )
@@ -12,6 +14,14 @@ func IsM3U8(URL *models.URL) bool {
 
 func M3U8(URL *models.URL) (assets []*models.URL, err error) {
 	defer URL.RewindBody()
+
+	// The playlist decoder panics on some malformed playlists (e.g. an #EXT-X-KEY tag before any
+	// segment): a bad document must only cost this URL its assets, not take the crawler down
+	defer func() {
+		if r := recover(); r != nil {
+			assets, err = nil, fmt.Errorf("m3u8 decoder panicked: %v", r)
+		}
+	}()
 
 	var rawAssets ([]string)
 
